@@ -25,6 +25,11 @@ TRANSLATOR_PARTS += ["trmatch"]
 # (translate/melody.py -> lean/MirGen/Melody.lean); Props/C04_GenMelody.lean proves the generated definitions equal to the
 # hand-written melody model for all inputs; suite `gen_melody` runs them (driver op `gen.melody`) against the real functions
 TRANSLATOR_PARTS += ["melody"]
+# mir_eval.alignment's metrics and the glue of its `evaluate` are REGENERATED from the source (translate/alignment.py ->
+# lean/MirGen/Alignment.lean; `validate` is the definition of the `validators` part, hence that part is regenerated here too);
+# Props/C04_GenAlignment.lean proves the generated definitions equal to the hand-written alignment model for all timestamp
+# lists; suite `gen_alignment` runs them (driver op `gen.alignment`) against the real functions
+TRANSLATOR_PARTS += ["validators", "alignment"]
 _here = os.path.dirname(os.path.abspath(__file__))
 _props = os.path.join(os.path.dirname(os.path.dirname(_here)), "lean", "MirProofs", "Props")
 LEAN_MODULES = sorted("MirProofs.Props." + os.path.basename(f)[:-5]
@@ -362,6 +367,103 @@ def _suite_gen_melody(rng, tier, shard, nshards):
 
 
 SUITES["gen_melody"] = suite_gen_melody
+
+
+# ------------------------------------------------------------------------------------------------
+# suite gen_alignment: the GENERATED alignment definitions (lean/MirGen/Alignment.lean, driver op `gen.alignment`) vs the real
+# functions, and the run-time library's primitives themselves (`pyal.*`) vs NumPy / SciPy on the shapes `alignment.validate`
+# never lets through (empty / unequal lengths) — lean/MirModel/PyAl.lean is the translator's semantic assumption
+
+def _ga_available():
+    """the functions the translator emitted on THIS run (driver op `gen.alignment "?"`)"""
+    import core
+    import proto
+    try:
+        outs = core.run_driver(["0 gen.alignment %s\n" % proto.enc("?")])
+        v = proto.dec_line(outs[0])[1]
+    except Exception:  # noqa: BLE001
+        return set()
+    return set(v) if isinstance(v, list) else set()
+
+
+def _ga_retarget(case):
+    fn = case.op.split(".", 1)[1]
+    info = dict(case.info or {}, op="gen.alignment", fn=fn)
+    return Case("gen.alignment", [fn] + list(case.args), case.call, tol=case.tol, tag="gen " + case.tag, info=info,
+                nontrivial=case.nontrivial, post=case.post)
+
+
+def _ga_prim_cases(rng, tier):
+    import itertools
+    import warnings
+    import numpy as np
+    import gen
+    from fractions import Fraction as Fr
+    from scipy.stats import skewnorm
+    reps = 2 if tier == "quick" else 10
+    vals = [Fr(0), Fr(1), Fr(1, 2), Fr(-3, 4), Fr(100), Fr(5, 4), Fr(7, 32)]
+
+    def quiet(f):
+        def g():
+            with warnings.catch_warnings():
+                warnings.simplefilter("ignore")
+                with np.errstate(all="ignore"):
+                    return f()
+        return g
+    for la in range(7):
+        for _ in range(reps):
+            a = [rng.choice(vals) for _ in range(la)]
+            m = [rng.random() < 0.5 for _ in range(la)]
+            A, M = gen.arr(a), np.array(m, dtype=bool)
+            info = {"op": "pyal", "a": [str(x) for x in a], "m": m}
+            tag = "prim n=%d" % la
+            yield Case("pyal.median", [a], quiet(lambda A=A: float(np.median(A))), tag=tag, info=info)
+            yield Case("pyal.mean", [a], quiet(lambda A=A: float(np.mean(A))), tag=tag, info=info)
+            yield Case("pyal.meanMask", [m], quiet(lambda M=M: float(np.mean(M))), tag=tag, info=info)
+            yield Case("pyal.max", [a], lambda A=A: float(np.max(A)), tag=tag, info=info)
+            yield Case("pyal.dropLast", [a], lambda A=A: A[:-1], tag=tag, info=info)
+            yield Case("pyal.drop1", [a], lambda A=A: A[1:], tag=tag, info=info)
+            for i in range(-la - 1, la + 1):
+                yield Case("pyal.getIdx", [a, i], lambda A=A, i=i: float(A[i]), tag=tag, info=dict(info, i=i))
+    for la, lb in itertools.product(range(4), repeat=2):
+        for _ in range(reps):
+            a = [rng.choice(vals) for _ in range(la)]
+            b = [rng.choice(vals) for _ in range(lb)]
+            A, B = gen.arr(a), gen.arr(b)
+            tag = "prim lengths %s" % ("equal" if la == lb else "one" if 1 in (la, lb) else "unequal")
+            info = {"op": "pyal", "a": [str(x) for x in a], "b": [str(x) for x in b]}
+            yield Case("pyal.vmax", [a, b], lambda A=A, B=B: np.maximum(A, B), tag=tag, info=info)
+            yield Case("pyal.vmin", [a, b], lambda A=A, B=B: np.minimum(A, B), tag=tag, info=info)
+    for _ in range(40 if tier == "quick" else 400):
+        x = Fr(rng.randint(-6 * 64, 6 * 64), 64)
+        a = rng.choice([Fr(0), Fr(112244251, 100000000), Fr(-2), Fr(3)])
+        loc = rng.choice([Fr(0), Fr(-22270315, 100000000), Fr(1, 2)])
+        sc = rng.choice([Fr(1), Fr(29779424, 100000000), Fr(2)])
+        yield Case("pyal.skewnormPdf", [x, a, loc, sc],
+                   lambda x=x, a=a, loc=loc, sc=sc: float(skewnorm.pdf(float(x), float(a), loc=float(loc), scale=float(sc))),
+                   tol=1e-9, tag="prim skewnorm.pdf", info={"op": "pyal.skewnormPdf", "x": str(x), "a": str(a),
+                                                            "loc": str(loc), "scale": str(sc)})
+
+
+def suite_gen_alignment(rng, tier, shard, nshards):
+    """the existing alignment streams (E lattice with offsets on / next to the window, D decimals, X faults: empty, unequal
+    sizes, decreasing, negative, bad durations, identical reference; evaluate with / without window / duration; the
+    perceptual sweep) asked of the GENERATED definitions, and the run-time primitives against NumPy / SciPy"""
+    from suites import alignment as AS
+    avail = _ga_available()
+    for name, cap in (("alignment.metrics", 1500), ("alignment.evaluate", 200), ("alignment.perceptual_sweep", 100)):
+        for j, c in enumerate(AS.SUITES[name](rng, tier, shard, nshards)):
+            if tier == "quick" and j >= cap:
+                break
+            if c.op == "alignment.validate":
+                continue                                  # the `validators` part's definition: suite gen_validators (C14)
+            if c.op.split(".", 1)[1] in avail:
+                yield _ga_retarget(c)
+    for c in _ga_prim_cases(rng, tier):
+        yield c
+
+
+SUITES["gen_alignment"] = suite_gen_alignment
 
 CHECKERS = {"documented_defaults": check_defaults}
 ORACLES = {"documented_defaults": gen_defaults}
